@@ -134,6 +134,23 @@ func (in *Interp) ret(st *State, results []ast.Expr, pos token.Pos) {
 	in.syncCursors(st)
 	r.St = st.clone()
 	in.Rets = append(in.Rets, r)
+	// an error variable that was set under a condition and is returned at the end (`if bad { err = … }; return
+	// err`): the return is an error exit under that condition, as if the function had returned there
+	if !r.IsErr {
+		for i, v := range r.Vals {
+			if i < len(rts) && isErrorType(rts[i]) {
+				if mv, ok := v.(MaybeV); ok && mv.Cond != "" && mv.Cond != "false" {
+					g := andGuard(r.Guard, mv.Cond)
+					if mv.V.Path != "error" {
+						// the result of a child step, which may itself be nil: an error exit when that step failed
+						g = andGuard(g, "!("+mv.V.Path+"==nil)")
+					}
+					er := &RetRec{Guard: g, Vals: r.Vals, St: r.St, Pos: r.Pos, IsErr: true}
+					in.Rets = append(in.Rets, er)
+				}
+			}
+		}
+	}
 }
 
 // guardImpliesNonNil: the current guard contains "<err>!=nil".
